@@ -381,7 +381,11 @@ def component_order(project, chk):
             continue
         n += 1
         got = [sorted(indices(e, set())) for e in o[1]]
-        ok = all(g == [k] for k, g in enumerate(got))
+        if any(len(g) != 1 for g in got):
+            chk.not_decided.append(f"W9: {project.loc(fi.module, c)} the components' positions are not all readable ({got})")
+            n += 1
+            continue
+        ok = all(g in ([k], [k - 4]) for k, g in enumerate(got))
         chk.check(ok, "W9", fi.short, norm_text(c), project.loc(fi.module, c), "the compositor's (R, G, B, alpha) are components 0, 1, 2, 3 of the input, in that order",
                   how=f"component indices per position: {got}", message=f"the colour handed to the compositor takes its (R, G, B, alpha) from components {got} of the input: channels are swapped or reused")
         fl = [sorted(flags(e, set()), key=str) for e in o[1]]
